@@ -233,12 +233,11 @@ func parse(result *Version, input string) error {
 
 	colon := strings.Index(trimmed, ":")
 	if colon != -1 {
-		epoch, err := strconv.ParseInt(trimmed[:colon], 10, 64)
+		/* Digits only (no sign), and no more than the Epoch field holds on
+		 * this platform. */
+		epoch, err := strconv.ParseUint(trimmed[:colon], 10, 0)
 		if err != nil {
 			return fmt.Errorf("epoch: %v", err)
-		}
-		if epoch < 0 {
-			return fmt.Errorf("epoch in version is negative")
 		}
 		result.Epoch = uint(epoch)
 	}
